@@ -22,7 +22,23 @@ class C17(hc.PProp):
     expected_probes = ['expected_entries', 'survived_entries', 'clean_exits']
     sim_limit_s = 3000
 
+    def plan_many(self, rng, tier, index):
+        """directed stratum: several hundred small entries, so that the rebuild and its validation pass work through more than one batch"""
+        kind = rng.choice(['ufs', 'ufs', 'rock', 'ufs2'])
+        conf = {'cache': kind, 'cache_mem_mb': 0, 'lines': ['maximum_object_size_in_memory 0 KB'], 'store_log': True, 'ufs_mb': 64, 'ufs_small_max': 50, 'rock_mb': 64, 'rock_slot': 4096}
+        plan = hc.std_plan(rng, conf, hostile=False)
+        plan['knobs'] = {'net.seg.max': [16384], 'clock.tick_us': [1, 5]}
+        nurl = rng.choice([505, 620, 760, 999])
+        plan['urls'] = [{'sizes': [rng.choice([10, 10, 100])], 'lm': False, 'etag': False, 'cc': 'max-age=1000000', 'framing': 'cl', 'bumps': []} for u in range(nurl)]
+        plan['steps'] = [{'id': index * 100000 + u + 1, 'u': u, 'wait': 0, 'hdrs': [], 'new_conn': False} for u in range(nurl)]
+        plan['idle_us'] = 5000000
+        plan['downtime_us'] = 1000000
+        plan['_lists'] = []
+        return plan
+
     def plan(self, rng, tier, index):
+        if index % 8 == 7:
+            return self.plan_many(rng, tier, index)
         kind = rng.choice(['rock', 'rock', 'ufs', 'ufs', 'both', 'ufs2'])
         conf = {'cache': kind, 'cache_mem_mb': rng.choice([0, 1, 8]), 'lines': ['maximum_object_size_in_memory 0 KB'] if rng.random() < 0.4 else [], 'store_log': True,
                 'ufs_mb': 64, 'ufs_small_max': rng.choice([4096, 20000, 1000000]), 'rock_mb': 64, 'rock_slot': rng.choice([4096, 16384, 32768])}
